@@ -231,6 +231,22 @@ fn ledger_driver(out: &str, seed: u64, n: u64, len: u64) {
             r.act(json!({"op":"deposit","acct":"A4","bank":"B2","amount": 2_000_000_000_000u64}));
             r.act(json!({"op":"deposit","acct":"A4","bank":"B3","amount": 100_000_000_000u64}));
         }
+        if k % 4 != 3 && k % 2 == 0 {
+            // exact-amount exits after interest moved the share values: what is left is a fraction of a unit;
+            // closing the position must leave no more than the 0.0001-unit dust behind
+            let x: u64 = *pick(&mut rng, &[1000u64, 1_000_000, 50_000_000]);
+            r.act(json!({"op":"deposit","acct":"A1","bank":"B1","amount":x}));
+            r.act(json!({"op":"deposit","acct":"A2","bank":"B2","amount":2_000_000_000_000u64}));
+            r.act(json!({"op":"borrow","acct":"A2","bank":"B1","amount":1_000_000_000u64}));
+            r.act(json!({"op":"borrow","acct":"A3","bank":"B1","amount":x,"may_fail":true}));
+            r.act(json!({"op":"tick","dt": *pick(&mut rng, &[3600i64, 86400, 2_592_000])}));
+            r.act(json!({"op":"withdraw","acct":"A1","bank":"B1","amount":x}));
+            r.act(json!({"op":"close_balance","acct":"A1","bank":"B1"}));
+            r.act(json!({"op":"withdraw","acct":"A1","bank":"B1","amount":0,"all":true}));
+            r.act(json!({"op":"repay","acct":"A2","bank":"B1","amount":1_000_000_000u64}));
+            r.act(json!({"op":"close_balance","acct":"A2","bank":"B1"}));
+            r.act(json!({"op":"repay","acct":"A2","bank":"B1","amount":0,"all":true}));
+        }
         for _ in 0..len {
             let c = rng.gen_range(0..100);
             let acct = *pick(&mut rng, &accts);
@@ -462,6 +478,13 @@ fn risk_driver(out: &str, seed: u64, n: u64) {
                 extra.push(json!({"op":"configure_emode","bank":d.name,"tag": 0,"entries":entries,"may_fail":true}));
             }
         }
+        // some collateral banks have lived: their deposit share value is no longer 1 (set before anyone holds shares;
+        // marked state injection, the value itself is one that interest accrual reaches)
+        for c in cols.iter() {
+            if rng.gen_bool(0.35) {
+                extra.push(json!({"op":"inject_bank","bank":c.name,"asv":*pick(&mut rng, &["1.25", "1.0004", "3.7", "1.000000001"])}));
+            }
+        }
         // funding and positions
         for c in cols.iter() {
             let amt: u64 = *pick(&mut rng, &[1_000u64, 1_000_000, 123_456_789, 50_000_000_000, 7_000_000_000_000]);
@@ -478,13 +501,13 @@ fn risk_driver(out: &str, seed: u64, n: u64) {
             extra.push(json!({"op":"deposit","acct":"LP","bank":d.name,"amount":"3000000000000000000","may_fail":true}));
         }
         // state changes after the deposits: reduce-only collateral, stale / doctored collateral oracle
-        if rng.gen_bool(0.15) {
+        if rng.gen_bool(0.25) {
             let c = pick(&mut rng, &cols);
             extra.push(json!({"op":"configure_bank","bank":c.name,"cfg":{"op_state":2},"may_fail":true}));
         }
         r.begin(&extra);
         let mut osub = serde_json::Map::new();
-        match rng.gen_range(0..10) {
+        match rng.gen_range(0..14) {
             0 => {
                 let c = pick(&mut rng, &cols);
                 r.act(json!({"op":"set_oracle","oracle":c.oracle,"age":100000}));
@@ -492,6 +515,23 @@ fn risk_driver(out: &str, seed: u64, n: u64) {
             1 => {
                 let c = pick(&mut rng, &cols);
                 osub.insert(c.name.clone(), json!(debts[0].oracle));
+            }
+            2 => {
+                // an update that was posted with partial verification only
+                let c = pick(&mut rng, &cols);
+                r.act(json!({"op":"set_oracle","oracle":c.oracle,"verif_ok":false}));
+            }
+            3 => {
+                // the same on the debt side: a debt can never be valued from it
+                r.act(json!({"op":"set_oracle","oracle":debts[0].oracle,"verif_ok":false}));
+            }
+            4 => {
+                let c = pick(&mut rng, &cols);
+                r.act(json!({"op":"set_oracle","oracle":c.oracle,"discr_ok":false}));
+            }
+            5 => {
+                let c = pick(&mut rng, &cols);
+                r.act(json!({"op":"set_oracle","oracle":c.oracle,"owner":"stranger"}));
             }
             _ => {}
         }
@@ -619,6 +659,10 @@ fn liq_driver(out: &str, seed: u64, n: u64) {
         };
         if lo > 0 {
             r.act(mkb(lo));
+        }
+        // sometimes the collateral bank is already at or over its deposit cap when the liquidator receives the seized shares
+        if rng.gen_bool(0.3) {
+            r.act(json!({"op":"configure_bank","bank":"C1","cfg":{"deposit_limit": *pick(&mut rng, &[1u64, camt / 2 + 1, camt])}}));
         }
         // sometimes the collateral bank has a borrower too, so that its share value moves and balances stop being whole units
         let frac_collateral = rng.gen_bool(0.5);
@@ -1071,9 +1115,48 @@ fn integ_driver(out: &str, seed: u64, n: u64) {
             _ => ((rng.gen::<u64>() >> rng.gen_range(0..64)) as i128) << rng.gen_range(0..48),
         }
     };
+    // U68F60 / WAD style 127-bit operands
+    let r127 = |rng: &mut StdRng| -> i128 {
+        match rng.gen_range(0..6) {
+            0 => rng.gen_range(0..5000),
+            1 => i128::MAX - rng.gen_range(0..3),
+            2 => (1i128 << rng.gen_range(0..127)) - 1 + rng.gen_range(0..3),
+            _ => ((rng.gen::<u64>() as i128) << 63 | rng.gen::<u64>() as i128 >> 1) >> rng.gen_range(0..126),
+        }
+    };
     for _ in 0..n {
-        let k = rng.gen_range(0..14);
+        let k = rng.gen_range(0..19);
         let a = match k {
+            14 => {
+                // the 80-bit integer range of I80F48 from both sides
+                let e = *pick(&mut rng, &[79u32, 79, 80, 78]);
+                let raw = (1i128 << e) - 2 + rng.gen_range(0..4);
+                let raw = if rng.gen_bool(0.3) { -raw } else { raw };
+                let ratio = *pick(&mut rng, &[1i128 << 48, 1, 3i128 << 47, (1i128 << 48) - 1]);
+                if raw >= 0 {
+                    json!({"op":"integ","fn":"ty.adj_i128","args":[b(raw), b(ratio)],"args2":[b(raw + rng.gen_range(0..3)), b(ratio)]})
+                } else {
+                    json!({"op":"integ","fn":"ty.adj_i128","args":[b(raw), b(ratio)]})
+                }
+            }
+            15 => json!({"op":"integ","fn":*pick(&mut rng, &["kamino.sf", "solend.wad"]),"args":[b(r127(&mut rng))]}),
+            16 => {
+                let sm = |rng: &mut StdRng| -> i128 { r127(rng) >> *pick(rng, &[0u32, 40, 60, 67, 100]) };
+                json!({"op":"integ","fn":"kamino.total","args":[b(ru64(&mut rng) as i128), b(r127(&mut rng)), b(sm(&mut rng)), b(sm(&mut rng)), b(sm(&mut rng))]})
+            }
+            17 => {
+                let sm = |rng: &mut StdRng| -> i128 { r127(rng) >> *pick(rng, &[0u32, 40, 60, 100]) };
+                json!({"op":"integ","fn":"solend.total","args":[b(ru64(&mut rng) as i128), b(r127(&mut rng)), b(sm(&mut rng))]})
+            }
+            18 => {
+                // a reserve with every component of its supply populated (fees below what was borrowed)
+                let avail = ru64(&mut rng) >> 8;
+                let bor: i128 = ((ru64(&mut rng) >> 10) as i128) << 60;
+                let fee = |rng: &mut StdRng| -> i128 { (bor >> rng.gen_range(4..40)) + rng.gen_range(0..5000) };
+                let sup = (ru64(&mut rng) >> 8).max(1);
+                json!({"op":"integ","fn":"kamino.full.c2l","args":[b((ru64(&mut rng) >> 12) as i128), b(avail as i128), b(bor), b(fee(&mut rng)), b(fee(&mut rng)), b(fee(&mut rng)),
+                       b(sup as i128), b(*pick(&mut rng, &[0i128, 6, 9]))]})
+            }
             0 | 1 | 2 => {
                 let f = *pick(&mut rng, &["ty.c2l", "ty.l2c", "ty.roundtrip"]);
                 json!({"op":"integ","fn":f,"args":[b(ru64(&mut rng) as i128), b(rfx(&mut rng)), b(rfx(&mut rng))]})
@@ -1137,6 +1220,22 @@ fn caps_driver(out: &str, seed: u64, n: u64) {
         if bor > 0 {
             r.act(json!({"op":"borrow","acct":"A3","bank":bank,"amount":bor}));
         }
+        if bor == 0 && rng.gen_bool(0.6) {
+            // a bank lent out almost completely whose vault still holds the origination fees: a small lender leaving
+            // (by amount and with withdraw-all) must not take deposits below debt
+            let small = dep / 25;
+            r.act(json!({"op":"deposit","acct":"A1","bank":bank,"amount":small}));
+            r.act(json!({"op":"borrow","acct":"A3","bank":bank,"amount":dep - 1}));
+            for all in [true, false] {
+                r.fork(&mut |r: &mut Recorder| {
+                    r.act(json!({"op":"withdraw","acct":"A1","bank":bank,"amount": if all { 0 } else { small },"all":all}));
+                });
+            }
+            r.fork(&mut |r: &mut Recorder| {
+                r.act(json!({"op":"withdraw","acct":"A1","bank":bank,"amount":small - small / 2}));
+            });
+            continue;
+        }
         let dl: u64 = match rng.gen_range(0..5) { 0 => 0, 1 => 1, 2 => dep + rng.gen_range(0..3), 3 => dep + dep / 10, _ => u64::MAX };
         let bl: u64 = match rng.gen_range(0..4) { 0 => 0, 1 => bor + rng.gen_range(0..3), 2 => bor + dep / 20, _ => u64::MAX };
         r.act(json!({"op":"configure_limits","bank":bank,"deposit_limit":dl.to_string(),"borrow_limit":bl.to_string()}));
@@ -1146,6 +1245,9 @@ fn caps_driver(out: &str, seed: u64, n: u64) {
                 0 | 1 => json!({"op":"tick","dt": *pick(&mut rng, &[1i64, 3600, 86400, 2_592_000, 31_536_000])}),
                 2 | 3 | 4 => {
                     // amounts at the remaining capacity +-1
+                    if rng.gen_bool(0.5) {
+                        r.act(json!({"op":"accrue","bank":bank}));
+                    }
                     let b = r.ex.bank(bank).unwrap();
                     let tot = (fixed::types::I80F48::from(b.total_asset_shares) * fixed::types::I80F48::from(b.asset_share_value)).to_num::<u64>();
                     let room = dl.saturating_sub(tot);
@@ -1154,9 +1256,25 @@ fn caps_driver(out: &str, seed: u64, n: u64) {
                 }
                 5 => json!({"op":"deposit","acct":"A1","bank":bank,"amount": u64::MAX.to_string(),"up_to_limit":true}),
                 6 | 7 => {
+                    // bring interest up to now first, so that the remaining room computed here is the one the handler sees;
+                    // then the three amounts around it as recorded side branches
+                    r.act(json!({"op":"accrue","bank":bank}));
                     let b = r.ex.bank(bank).unwrap();
                     let tot = (fixed::types::I80F48::from(b.total_liability_shares) * fixed::types::I80F48::from(b.liability_share_value)).to_num::<u64>();
                     let room = bl.saturating_sub(tot);
+                    if bl != u64::MAX && room > 2 {
+                        // (the origination fee is added to the debt too: the largest accepted amount is found by bisection)
+                        let mk = |x: u64| json!({"op":"borrow","acct":"A3","bank":bank,"amount":x});
+                        if let Some((lo, hi)) = search_boundary(&mut r, &mk, room.saturating_add(1), "BankLiabilityCapacityExceeded") {
+                            for amt in [hi, lo] {
+                                if amt > 0 {
+                                    r.fork(&mut |r: &mut Recorder| {
+                                        r.act(mk(amt));
+                                    });
+                                }
+                            }
+                        }
+                    }
                     let amt = match rng.gen_range(0..4) { 0 => room, 1 => room.saturating_sub(1), 2 => room.saturating_add(1), _ => rng.gen_range(0..room.max(1).saturating_mul(2).saturating_add(2)) };
                     json!({"op":"borrow","acct":"A3","bank":bank,"amount":amt})
                 }
